@@ -296,11 +296,35 @@ func (c *compiler) evalUpdateIndex(left, index, value interface{}) error {
 	rv := reflect.ValueOf(left)
 	switch rv.Kind() {
 	case reflect.Map:
+		mt := rv.Type()
+		if rv.IsNil() {
+			return fmt.Errorf("assignment to entry in nil map %T", left)
+		}
+		if index == nil {
+			return fmt.Errorf("cannot use nil as map index")
+		}
+		if it := reflect.TypeOf(index); !it.AssignableTo(mt.Key()) || !it.Comparable() {
+			return fmt.Errorf("cannot use %v (%s) as %s value in map index", index, it, mt.Key())
+		}
+		if value != nil && !reflect.TypeOf(value).AssignableTo(mt.Elem()) {
+			return fmt.Errorf("cannot use '%v' (%T) as %s value in assignment", value, value, mt.Elem())
+		}
 		rv.SetMapIndex(reflect.ValueOf(index), reflect.ValueOf(value))
 	case reflect.Array, reflect.Slice:
 		if i, ok := index.(int); ok {
-			if rv.Len()-1 < i {
+			if i < 0 {
+				err = fmt.Errorf("array index out of bounds, got negative index %d", i)
+			} else if rv.Len()-1 < i {
 				err = fmt.Errorf("array index out of bounds, got index %d, while array size is %v", i, rv.Len())
+			} else if !rv.Index(i).CanSet() {
+				err = fmt.Errorf("cannot assign to an element of %T (not addressable)", left)
+			} else if value == nil {
+				elemType := reflect.TypeOf(left).Elem()
+				if elemType.Kind() != reflect.Interface {
+					err = fmt.Errorf("cannot use nil as %s value in assignment", elemType)
+				} else {
+					rv.Index(i).Set(reflect.Zero(elemType))
+				}
 			} else {
 				elemType := reflect.TypeOf(left).Elem()
 				if elemType.Kind() != reflect.Interface {
